@@ -16,7 +16,7 @@ let box a k = ((((v3 a k, v3 a (k+3)), v3 a (k+6)), v3 a (k+9)), v3 a (k+12))
 
 let () =
   let verts = ref [] and faces = ref [] and fv = ref [] and fe = ref [] and ev = ref [] and ef = ref []
-  and tlines = ref [] and msphere = ref None in
+  and tlines = ref [] and msphere = ref None and curbox = ref None in
   let cert_done = ref false in
   let reset () = verts := []; faces := []; fv := []; fe := []; ev := []; ef := []; tlines := []; msphere := None; cert_done := false in
   let rec parse_tree (ls : string array list) : float otree * string array list =
@@ -81,6 +81,12 @@ let () =
         verts := List.rev pts; faces := []; cert_done := true
     | "PB" -> let bx = box a 1 in Printf.printf "PB %b\n" (List.for_all (fun p -> box_contains fops tol bx p) (List.rev !verts))
     | "PS" -> Printf.printf "PS %b\n" (List.for_all (fun p -> sphere_contains fops tol (v3 a 1) (f a.(4)) p) (List.rev !verts))
+    | "B" -> curbox := Some (box a 1)
+    | "Y" -> (match !curbox with
+              | Some bx -> (match box_ray fops bx (v3 a 1) (v3 a 4) with
+                            | Some t -> Printf.printf "BR 1 %.17g\n" t
+                            | None -> print_endline "BR 0 0")
+              | None -> print_endline "BR -")
     | "END" -> cert (); print_endline "END"
     | _ -> ()
   done with End_of_file -> ());
